@@ -206,8 +206,8 @@ func (sv *serverT) close() { go sv.s.Close() }
 
 // effective client id the server keys the lease by
 func (c clientT) key() []byte {
-	if c.cid0 {
-		return []byte{}
+	if c.cid0 { // zero-length option 61 is treated as absent since /repo ec7166b (before: the empty key, lost at restart)
+		return c.mac
 	}
 	if c.cid != nil {
 		return c.cid
